@@ -64,6 +64,7 @@ def gen_case(rng, tier):
     if rng.random() < 0.4:
         c['scale'] = rng.choice([2.0, 0.5, 1024.0, 3.0, 0.1, rng.uniform(0.01, 100)])
     c['periods'] = rng.choice([252, 252, 52, 12, 365, 1638, 1])
+    c['raw_scale'] = rng.choice([1.0, 1.0, 0.001, 1e-6, 2.5])
     if rng.random() < 0.5:
         # a benchmark with its own (different) dates: an earlier start and/or a later end, other values
         cur = c['curve']
@@ -223,6 +224,13 @@ class C17(Prop):
                            ('cagr', a['cagr'], js['cagr']), ('max drawdown vs performance', a['maxdd'], js['maxdd'])):
             if not ok(x, y, 1e-12):
                 F.append('tearsheet / JSON / performance disagree on %s: %s vs %s' % (name, x, y))
+        dr = a.get('dd_raw')
+        if dr:
+            # create_drawdowns is a public function: on the raw (not normalised) curve the series is the same
+            if len(dr['dd']) != len(dd) or any(not ok(float(x), y, 1e-9) for x, y in zip(dd, dr['dd'])):
+                F.append('create_drawdowns on the raw equity series (first value %s) differs from 1 - value / running maximum' % (c['curve'][0][1] * c.get('raw_scale', 1.0)))
+            elif not ok(float(maxdd), dr['maxdd']) or (not kn and dur != dr['duration']):
+                F.append('create_drawdowns on the raw equity series: max %s / duration %s, definition %s / %s' % (dr['maxdd'], dr['duration'], float(maxdd), dur))
         ru = a.get('reuse')
         if ru and ru[0] != 'same':
             F.append('statistics of a sub-period taken from an already analysed frame differ from those of the same equity values in a fresh frame: %s' % ru)
